@@ -35,13 +35,29 @@ Proof.
   - intros H. apply negb_true_iff in H. destruct (tup_lt (pv_list pv) [3; 8]%nat); [|reflexivity]. now rewrite H.
 Qed.
 (* the default list never holds abi3/none, has no repeats, and is lower-case (so the Tag-level NoDup theorem applies to it) *)
+(* lower-case ASCII text is a fixed point of the exact str.lower() *)
+Definition lstable (s : str) : Prop := ascii s /\ map lc s = s.
+Lemma lstable_lower s : lstable s -> lower s = s.
+Proof. intros [A E]. now rewrite lower_ascii. Qed.
+Lemma lstable_app a b : lstable a -> lstable b -> lstable (a ++ b).
+Proof. intros [A1 E1] [A2 E2]. split; [now apply ascii_app | now rewrite map_app, E1, E2]. Qed.
+Lemma lstable_digits s : forallb is_digit s = true -> lstable s.
+Proof.
+  intros H. split; [now apply digits_ascii|]. induction s as [|c s IH]; cbn [forallb map] in *; auto.
+  apply andb_prop in H as [H1 H2]. now rewrite lc_digit, IH.
+Qed.
+Lemma abi_flags_lstable c pv : lstable (abi_flags c pv).
+Proof. unfold abi_flags. destruct (abi_threading c pv), (abi_debug c), (abi_pymalloc c pv), (abi_ucs4 c pv); split; reflexivity. Qed.
 Lemma abi_flags_lower c pv : lower (abi_flags c pv) = abi_flags c pv.
-Proof. unfold abi_flags. destruct (abi_threading c pv), (abi_debug c), (abi_pymalloc c pv), (abi_ucs4 c pv); reflexivity. Qed.
+Proof. apply lstable_lower, abi_flags_lstable. Qed.
 Lemma cpython_abis_lower c pv : map lower (cpython_abis c pv) = cpython_abis c pv.
 Proof.
-  rewrite cpython_abis_shape. cbn [map]. rewrite !lower_app, abi_flags_lower.
-  assert (L : lower (nodot2 pv) = nodot2 pv) by apply lower_nodot. rewrite L. f_equal.
-  destruct (_ && _); [|reflexivity]. cbn [map]. rewrite !lower_app, L. destruct (abi_threading c pv); reflexivity.
+  assert (N : lstable (nodot2 pv)) by (apply lstable_digits, nodot_digits).
+  assert (C : lstable s_cp) by (split; reflexivity).
+  rewrite cpython_abis_shape. cbn [map]. rewrite (lstable_lower (s_cp ++ nodot2 pv ++ abi_flags c pv)).
+  2:{ apply lstable_app; [exact C|]. apply lstable_app; [exact N | apply abi_flags_lstable]. }
+  f_equal. destruct (_ && _); [|reflexivity]. cbn [map]. rewrite lstable_lower; [reflexivity|].
+  apply lstable_app; [exact C|]. apply lstable_app; [exact N|]. destruct (abi_threading c pv); split; reflexivity.
 Qed.
 Lemma cpython_abis_nodup c pv : NoDup (cpython_abis c pv).
 Proof.
